@@ -2,7 +2,7 @@
 HOOK_COMMITS = []
 META = {
     "C13": {
-        "text": "Bounded model checking of the real snapshot writer and reader: shapes enumerated, and — for the framing — every encoded document's byte length a symbolic integer up to 1 MiB, so the solver decides whether some payload size makes SaveSnapshot succeed while LoadFromSnapshot fails (the 16-bit length prefix), and whether GetQueue can index out of range. A concurrent harness lets the log grow (local write or the join ending a replication) at any visible step of SaveSnapshot. Two-writer shapes have concurrent chains of any lengths nb + na = T (heads with equal or different clock times), optionally merged; a pending-queue harness saves while a replication is stuck and loads with the pending block unavailable.",
+        "text": "Bounded model checking of the real snapshot writer and reader: shapes enumerated, and — for the framing — every encoded document's byte length a symbolic integer up to 1 MiB, so the solver decides whether some payload size makes SaveSnapshot succeed while LoadFromSnapshot fails (the 16-bit length prefix), and whether GetQueue can index out of range. A concurrent harness lets the log grow (local write or the join ending a replication) at any visible step of SaveSnapshot. Two-writer shapes have concurrent chains of any lengths nb + na = T (heads with equal or different clock times), optionally merged; a pending-queue harness saves while a replication is stuck and loads with the pending block unavailable. The loading instance may already hold the branch under one saved head.",
         "design_ref": "DESIGN.md §2 C13",
         "note": "Trusted: gosym incl. its rope-bytes model (symbolic segment lengths, alignment queries), in-memory Unixfs. Bounds: T<=3 entries (shapes) / 2 (sizes), lengths in [2, 2^20].",
     },
@@ -17,7 +17,7 @@ META = {
         "note": "Trusted: perfect hashing, idealised CBOR driven by the registered atlases, disk model. Bounds: names <= 2 bytes quick / 4 thorough (injectivity 1 / 2), 3 store types, <= 3 writers.",
     },
     "C02": {
-        "text": "Bounded model checking of a two-replica closed system executing the real write, announce, exchange-heads, Sync, replicator, Join and Load code: every fault plan of lost announcements and one restart within STEPS steps is explored (payloads symbolic), then the heal phase runs and both logs are compared. A second, instance-level harness runs 2-3 REAL orbitDB instances (newOrbitDB, Create/Open, monitorDirectChannel, handleEventExchangeHeads, store listeners) over a simulated network with link cuts, lost / duplicated announcements, restarts over the same directory and restarts that lose an in-memory cache. A third harness lets a peer OPEN the database while a replica holding acknowledged writes is connected: every schedule of the opening thread with one preemption (found the open-vs-head-exchange race fixed in 062ac51); store-level close / reopen on a live instance is a step of the system harness.",
+        "text": "Bounded model checking of a two-replica closed system executing the real write, announce, exchange-heads, Sync, replicator, Join and Load code: every fault plan of lost announcements and one restart within STEPS steps is explored (payloads symbolic), then the heal phase runs and both logs are compared. A second, instance-level harness runs 2-3 REAL orbitDB instances (newOrbitDB, Create/Open, monitorDirectChannel, handleEventExchangeHeads, store listeners) over a simulated network with link cuts, lost / duplicated announcements, restarts over the same directory and restarts that lose an in-memory cache. A third harness lets a peer OPEN the database while a replica holding acknowledged writes is connected: every schedule of the opening thread with one preemption (found the open-vs-head-exchange race fixed in 062ac51); store-level close / reopen on a live instance is a step of the system harness. A restart-race harness runs the Load of a restarted store concurrently with the Sync of heads written while it was down.",
         "design_ref": "DESIGN.md §2 C02",
         "note": "Trusted: gosym thread model, stub network (announcement delivery decided by the harness), perfect hashing. Bounds: 2 replicas, STEPS<=4 quick / 6 thorough, one restart kind.",
     },
@@ -27,7 +27,7 @@ META = {
         "note": "Trusted: perfect symbolic cryptography, gosym. The former known finding C03-id-not-bound-to-key was repaired in /repo (0e0edba): forged author fields incl. re-signed id signatures are now part of the verified space, nothing is carved out.",
     },
     "C04": {
-        "text": "Bounded model checking of the hash check in Sync, the replicator's fetch-by-hash and Join's log-id / signature verification: every single-field mutation (new clock time fully symbolic), with or without re-addressing, by both routes; the tampered entry must be absent at quiescence, held entries intact, and the original still acceptable. A further harness links a valid entry to a chain of entries validly written for another database and checks, after replication, after restart + load (whole ancestry fetched as one log) and on a relayed replica, that nothing with a foreign log id is listed, a head, or served. The codec-alias mutation is also delivered as an ancestor link (found the defect fixed in d77d3e0); the foreign-chain harness has an own chain of 1..H entries and a trimmed Load(n) on the live store or after restart.",
+        "text": "Bounded model checking of the hash check in Sync, the replicator's fetch-by-hash and Join's log-id / signature verification: every single-field mutation (new clock time fully symbolic), with or without re-addressing, by both routes; the tampered entry must be absent at quiescence, held entries intact, and the original still acceptable. A further harness links a valid entry to a chain of entries validly written for another database and checks, after replication, after restart + load (whole ancestry fetched as one log) and on a relayed replica, that nothing with a foreign log id is listed, a head, or served. The codec-alias mutation is also delivered as an ancestor link (found the defect fixed in d77d3e0); the foreign-chain harness has an own chain of 1..H entries and a trimmed Load(n) on the live store or after restart. A snapshot harness rewrites the snapshot file so that a frame claims another entry's address.",
         "design_ref": "DESIGN.md §2 C04",
         "note": "Trusted: perfect hashing/signatures, gosym. Bounds: one tampered entry, 9 field selectors x re-address x route.",
     },
@@ -47,7 +47,7 @@ META = {
         "note": "Trusted: gosym, stub bus/pubsub/direct channel. Bounds: 2 databases, STEPS<=3 quick / 4 thorough.",
     },
     "C05": {
-        "text": "Bounded model checking with the crash point as a solver variable: the real write and replication paths run over a disk that logs every persistence effect in order, acknowledgement instants are recorded, the crash index is a symbolic integer over all prefixes of the effect log, and the real Load runs on the recovered prefix; the solver shows every acknowledged entry is recovered, nothing unwritten appears, the log is ancestry-closed and the view matches. At instance level: clean close / reopen cycles by address and by name (Create with Overwrite) incl. reopen attempts that fail, and identity persistence through the public NewOrbitDB (real keystore and CreateIdentity over symbolic keys and a disk model with leveldb's directory lock). A sessions harness goes through clean close / reopen sessions with ANY load limit, extra writes and a second handle on the same directory, then reloads in full.",
+        "text": "Bounded model checking with the crash point as a solver variable: the real write and replication paths run over a disk that logs every persistence effect in order, acknowledgement instants are recorded, the crash index is a symbolic integer over all prefixes of the effect log, and the real Load runs on the recovered prefix; the solver shows every acknowledged entry is recovered, nothing unwritten appears, the log is ancestry-closed and the view matches. At instance level: clean close / reopen cycles by address and by name (Create with Overwrite) incl. reopen attempts that fail, and identity persistence through the public NewOrbitDB (real keystore and CreateIdentity over symbolic keys and a disk model with leveldb's directory lock). A sessions harness goes through clean close / reopen sessions with ANY load limit, extra writes and a second handle on the same directory, then reloads in full. A burst harness captures the disk image at the instant each of several concurrent writes is acknowledged and reloads from it.",
         "design_ref": "DESIGN.md §2 C05",
         "note": "Trusted: gosym, z3, the effect-log disk model (each effect durable on return). Bounds: STEPS<=3 quick / 4 thorough, one local and one remote writer.",
     },
@@ -57,12 +57,12 @@ META = {
         "note": "Clause (a) and clause (c) (legacy emitter: N=18 events, every schedule with <= 2 preemptions; stalled subscriber with 200 events). Clause (b), the real libp2p eventbus, is outside. Bounds as stated.",
     },
     "C01": {
-        "text": "Bounded model checking of the whole replication pipeline on the real code: two writer stores and a fresh replica run the real AddOperation, Sync, replicator, ipfs-log fetcher, Join and index code inside the interpreter; the history shape is enumerated, keys/values are symbolic, and the solver shows that all replicas holding the same entries list them in the same order and expose the same view, equal to the replay of the log. The third replica receives the entries by one of five routes, including a partial load from disk (limit) completed by the heads a lagging peer announces.",
+        "text": "Bounded model checking of the whole replication pipeline on the real code: two writer stores and a fresh replica run the real AddOperation, Sync, replicator, ipfs-log fetcher, Join and index code inside the interpreter; the history shape is enumerated, keys/values are symbolic, and the solver shows that all replicas holding the same entries list them in the same order and expose the same view, equal to the replay of the log. The third replica receives the entries by one of five routes, including a partial load from disk (limit) completed by the heads a lagging peer announces. An overlap harness lets the same entries reach a restarted event-log replica by Load and by Sync at the same time (every schedule with one preemption).",
         "design_ref": "DESIGN.md §2 C01",
         "note": "Trusted: gosym (incl. its cooperative thread model with run-to-block scheduling), z3, block-store/bus/cache stubs, idealised JSON, perfect hashing/signatures. Bounds: 2 writers + 1 reader, STEPS<=3 quick / 4-5 thorough.",
     },
     "C15": {
-        "text": "Bounded model checking of the real Load path (cache heads -> ipfs-log fetcher -> Join with size trimming -> index) with the limit a full 64-bit symbolic integer: the solver partitions the limit's range at every comparison in the real code and shows, per class, no panic, no error and exactly min(n,total) most recent entries in log order. With several cached heads the per-head goroutines of Load are explored under every schedule within the preemption bound.",
+        "text": "Bounded model checking of the real Load path (cache heads -> ipfs-log fetcher -> Join with size trimming -> index) with the limit a full 64-bit symbolic integer: the solver partitions the limit's range at every comparison in the real code and shows, per class, no panic, no error and exactly min(n,total) most recent entries in log order. With several cached heads the per-head goroutines of Load are explored under every schedule within the preemption bound. A sequence harness issues Load(n), lets the open log grow, and loads again with a limit within what it holds.",
         "design_ref": "DESIGN.md §2 C15",
         "note": "Trusted: gosym, z3, block-store/cache stubs. Bounds: logs of T<=3 quick / 5 thorough entries, one or two heads, P=1 preemption.",
     },
@@ -77,17 +77,17 @@ META = {
         "note": "Trusted: gosym, z3, scripted coreiface PubSub stub. Bounds: 3 peers x 3/4 snapshots, 3/5 messages, ids <= 2/3 bytes, payloads <= 3/6 bytes, raw frames <= 11/12 bytes.",
     },
     "C12": {
-        "text": "Bounded model checking of the real message-handling code with the input fully symbolic: raw stream frames as arbitrary byte strings (every varint / declared length), decoded head messages with every field independently nil/empty/present. Any feasible panic path is a counterexample the solver instantiates. At instance level the real monitorDirectChannel / handleEventExchangeHeads / topic listeners receive undecodable, ill-typed, mis-addressed and malformed-head payloads, alone or in one burst with honest traffic; allocations sized by a frame's length prefix are solver-checked against the frame limit. Malformed heads are also announced under a valid entry's own address with identity, key and signature copied from it (so memoised verdicts cannot poison the valid entry).",
+        "text": "Bounded model checking of the real message-handling code with the input fully symbolic: raw stream frames as arbitrary byte strings (every varint / declared length), decoded head messages with every field independently nil/empty/present. Any feasible panic path is a counterexample the solver instantiates. At instance level the real monitorDirectChannel / handleEventExchangeHeads / topic listeners receive undecodable, ill-typed, mis-addressed and malformed-head payloads, alone or in one burst with honest traffic; allocations sized by a frame's length prefix are solver-checked against the frame limit. Malformed heads are also announced under a valid entry's own address with identity, key and signature copied from it (so memoised verdicts cannot poison the valid entry). A heads message may name the address of a database whose open failed.",
         "design_ref": "DESIGN.md §2 C12",
         "note": "Trusted: gosym, z3; encoding/json is over-approximated by 'error or any value of the message type' for head messages. Bounds: frames <= 11/12 bytes, <= 2 heads.",
     },
     "C06": {
-        "text": "Bounded model checking of the real kvIndex.UpdateIndex / All / Get (through a store built by the real InitBaseStore): for every listing of N put/delete operations with symbolic keys and values and every earlier index state, the solver shows All() and Get(k) equal the last-writer-wins replay. A further harness gives two causally ordered puts SYMBOLIC clock values in [1, 2^40] (store-level sort), and a read-during-write harness checks a reader between append and index update. The map All() returns is treated as caller-owned: after the caller empties it and adds a key, All() and Get must still equal the replay.",
+        "text": "Bounded model checking of the real kvIndex.UpdateIndex / All / Get (through a store built by the real InitBaseStore): for every listing of N put/delete operations with symbolic keys and values and every earlier index state, the solver shows All() and Get(k) equal the last-writer-wins replay. A further harness gives two causally ordered puts SYMBOLIC clock values in [1, 2^40] (store-level sort), and a read-during-write harness checks a reader between append and index update. The map All() returns is treated as caller-owned: after the caller empties it and adds a key, All() and Get must still equal the replay. A happens-before harness overlaps the Load of a restarted replica with a replication and then puts the key again (it found the index snapshot race fixed in a87e428).",
         "design_ref": "DESIGN.md §2 C06",
         "note": "Trusted: gosym SSA semantics (native replay of sampled paths per run), z3, idealised JSON codec. Bounds: N<=3 quick / 4 thorough, 1-byte keys, 0..1-byte values.",
     },
     "C07": {
-        "text": "Bounded model checking of the real documentIndex.UpdateIndex, Get, Query and Delete: every listing of N operations incl. batch puts over symbolic keys, every Get option combination with a symbolic search key, a family of Query predicates; the oracle is a reference replay written in the harness.",
+        "text": "Bounded model checking of the real documentIndex.UpdateIndex, Get, Query and Delete: every listing of N operations incl. batch puts over symbolic keys, every Get option combination with a symbolic search key, a family of Query predicates; the oracle is a reference replay written in the harness. The public-API history harness (VerifC01Docs) also runs here and checks that the operation a PutAll wrote is the batch that was given.",
         "design_ref": "DESIGN.md §2 C07",
         "note": "Trusted: gosym, z3, idealised JSON, ASCII-exact ToLower stand-in. Bounds: N<=2/3 ops, M<=2/3 documents, keys <=1/2 bytes printable ASCII without space.",
     },
@@ -97,7 +97,7 @@ META = {
         "note": "Trusted: gosym, z3. Bounds: listing length N<=4 quick / 6 thorough. The order-stability clause over merge histories is decided by the C01 harnesses (real ipfs-log), see DESIGN.",
     },
     "C19": {
-        "text": "Bounded model checking of the real update functions: one inductive step from an ARBITRARY valid pre-state (progress, max, log length, argument all 64-bit symbolic) — the solver shows max'>=max, progress'>=progress, progress'<=max' and the at-rest equality for every value below 2^62, which covers histories of any length because the invariant is inductive. The history harness includes SaveSnapshot / LoadFromSnapshot steps and a fresh store loaded from the snapshot (this found the LoadFromSnapshot progress defect fixed in 36187f9); a two-database instance-level harness checks the at-rest clause per database.",
+        "text": "Bounded model checking of the real update functions: one inductive step from an ARBITRARY valid pre-state (progress, max, log length, argument all 64-bit symbolic) — the solver shows max'>=max, progress'>=progress, progress'<=max' and the at-rest equality for every value below 2^62, which covers histories of any length because the invariant is inductive. The history harness includes SaveSnapshot / LoadFromSnapshot steps and a fresh store loaded from the snapshot (this found the LoadFromSnapshot progress defect fixed in 36187f9); a two-database instance-level harness checks the at-rest clause per database. The history includes loads on the open store (everything or trimmed).",
         "design_ref": "DESIGN.md §2 C19",
         "note": "Trusted: gosym's SSA semantics (validated per run by native replay of sampled paths), z3. Assumes every status update goes through recalculateReplicationMax/Status (checked by reading; the harness drives exactly those). Bounds: values < 2^62.",
     },
